@@ -88,3 +88,24 @@ func drawHistory(t *rapid.T, forC12 bool) *core.Case {
 func TestC20(t *testing.T) {
 	runProp(t, "C20", func(t *rapid.T) *core.Case { return drawHistory(t, false) })
 }
+
+func TestC12(t *testing.T) {
+	runProp(t, "C12", func(t *rapid.T) *core.Case {
+		c := drawHistory(t, true)
+		k := rapid.IntRange(2, 32).Draw(t, "K")
+		if len(c.Hist) > k {
+			c.Hist = c.Hist[:k]
+		}
+		c.Delay = uint64(rapid.IntRange(1, 1<<30).Draw(t, "delay"))
+		c.Procs = rapid.SampledFrom([]int{2, 4, 8, 16}).Draw(t, "procs")
+		if rapid.IntRange(0, 3).Draw(t, "dist") == 0 {
+			c.Mode = "dist"
+			c.NParts = rapid.IntRange(1, 3).Draw(t, "nparts")
+			c.Parts = make([]int, len(c.Series))
+			for i := range c.Parts {
+				c.Parts[i] = rapid.IntRange(0, c.NParts-1).Draw(t, "part")
+			}
+		}
+		return c
+	})
+}
